@@ -29,5 +29,26 @@ def run(tier, replay=None):
       ('random_1', lambda prog, r: V.annotate(prog, r)),
       ('random_2', lambda prog, r: V.annotate(prog, r)),
   ]
-  K.run_core(rep, PID, tier, PROFILE, variants, 50, 500, 'c08', replay=replay, ok=ok, info=info, metamorphic=True)
+  found = K.run_core(rep, PID, tier, PROFILE, variants, 50, 500, 'c08', replay=replay, ok=ok, info=info, metamorphic=True)
+  # --- tie of the injection model (Core/Inject.v) to LogicaProgram.RunInjections / InjectStructure
+  if ok and not replay:
+    import random
+    from props import injecttie
+    n = 70 if tier == 'quick' else 1500
+    texts = [injecttie.gen_inject_program(random.Random('c08-inject/%d/%d' % (common.seed(), i))) for i in range(n)]
+    tie = injecttie.run_tie(texts)
+    rep.coverage['injection_tie'] = {k: v for k, v in tie.items() if k != 'mismatches'}
+    rep.coverage['injection_tie']['mismatching_rules'] = [t for t, _ in tie['mismatches'][:5]]
+    rep.coverage['traces_validated_against_impl'] = (rep.coverage.get('traces_validated_against_impl') or 0) + \
+        tie['exact'] + tie['both_reject']
+    if (tie['mismatches'] or tie['error']) and not found:
+      bad = [t for t, _ in tie['mismatches'][:5]]
+      wit = injecttie.search_failing_input(texts, bad) if bad else None
+      if wit:
+        rep.violation('injection-changes-rows', wit)
+      else:
+        rep.violation('tie-injection', {
+            'broken': 'correspondence Core/Inject.v run_injections vs universe.LogicaProgram.RunInjections + InjectStructure '
+                      '(theorems C08_injection_is_invisible / C08_injected_query_sound are about the model)',
+            'rules': bad, 'codes': [c for _, c in tie['mismatches'][:5]], 'error': tie['error']}, no_input=True)
   return rep.finish()
